@@ -4,7 +4,8 @@
                          is handed) ++ one flag per operation.
      e_model  = plain model's prediction ++ "t" flags;   e_oracle = C14_alias_ok (equality with it);
      e_agree  = additionally the heap model of Model/TrackerAlias.v, running the same experiment
-                with its own scribbling caller, predicts the same.
+                with its own scribbling caller, predicts the same (sequences of at most
+                al_observe_max operations; the heap model keeps every object ever allocated).
    kind "conc":  input = ["conc"; me; dec #setup fields; setup ops...; dec T; (dec #fields; ops...) x T]
                  obs   = per goroutine, per call: dec inv; dec ret; dec #fields; rendered result.
      e_oracle = e_agree = C14_conc_ok: the history is linearizable w.r.t. TrackerSpec.sp_step
@@ -213,7 +214,9 @@ Definition agree_C14 (i o : list bytes) : bool :=
       if beq k t_alias then
         match decode_alias r with
         | Some c => let m := TrackerC14.C14_alias_predict (ca_me c) (ca_U c) (ca_ops c) in
-                    fields_eqb m o && fields_eqb m (TrackerC14.al_observe (ca_me c) (ca_U c) (ca_ops c))
+                    fields_eqb m o
+                    && (Nat.ltb TrackerC14.al_observe_max (length (ca_ops c))
+                        || fields_eqb m (TrackerC14.al_observe (ca_me c) (ca_U c) (ca_ops c)))
         | None => false
         end
       else oracle_C14 i o
